@@ -40,6 +40,17 @@ def jobs(prop, tier, seed):
             if o.get("coerce"):
                 b = dict(b, int_abs=99 if tier == "quick" else 999, float_pool=True, str_pool=True)
             out.append(dict(harness="C03", variant="e2e", pool="data", pid=pid, opts=o, bounds=b, budget_s=budget_s))
+    from vf.specs import walk
+
+    for pid in pools.ids("union", tier):
+        spec, _ = pools.get("union", pid)
+        if not any(x.k == "disc" or (x.k == "obj" and x.opt("tagged")) for x in walk(spec)):
+            continue
+        for o in ({}, {"coerce": True}):
+            b = dict(depth=2, width=2, strlen=2, budget=2, exotic=True)
+            if o.get("coerce"):
+                b.update(int_abs=99, float_pool=True, str_pool=True)
+            out.append(dict(harness="C03", variant="e2e", pool="union", pid=pid, opts=o, bounds=b, budget_s=40 if tier == "quick" else 150))
     from vf.harness.C05 import STD
 
     for name in sorted(STD):
